@@ -161,6 +161,52 @@ def run(ctx, R):
                 "undeclared key holding such a value no longer decodes its declared fields" % "/".join(sorted(set(panicking))),
                 {"forwards": forwards, "panicking_arms": sorted(set(panicking))})
 
+    # r5: the row-level MapAccess hands every entry to the visitor exactly once, in order, each key followed by its own value -
+    # also when the value is null (a present null and an absent key are different things to serde: defaults apply only to the latter)
+    R.rule("r5", "MapAccess of a row / parameter map: every entry, in order, key then its own value, null values included (effect table)")
+    from tfv import absint as A
+    from tfv import stdmodel as M
+    mk = [f_ for f_ in C.fns if f_.get("impl_trait", "").endswith("de::MapAccess") and "serialization" in f_["path"] and "::tests" not in f_["path"]]
+    nk = [f_ for f_ in mk if f_["name"] == "next_key_seed"]
+    nv = [f_ for f_ in mk if f_["name"] == "next_value_seed"]
+    if len(nk) != 1 or len(nv) != 1:
+        R.fail("r5", "anchor", "-", "expected one MapAccess impl (next_key_seed / next_value_seed) in the serialization module")
+    else:
+        I5 = M.intrinsics()
+        I5["serde_core::de::DeserializeSeed::deserialize"] = lambda ip, n, a: M.ok(A.deref(a[1]))
+        I5["serde::de::DeserializeSeed::deserialize"] = I5["serde_core::de::DeserializeSeed::deserialize"]
+        I5["deserialize"] = I5["serde_core::de::DeserializeSeed::deserialize"]
+        I5["into_deserializer"] = lambda ip, n, a: A.deref(a[0])
+        entries = [("k1", A.Enum(FV, "Int64", [A.Sym("1")])), ("k2", A.Enum(FV, "Null")), ("k3", A.Enum(FV, "String", [A.Sym("s")])),
+                   ("k4", A.Enum(FV, "Null"))]
+        adt = (nk[0].get("self_ty") or "").split("<")[0]
+        me = A.Struct(adt, {"iter": M.IterV([A.Tuple([k, v]) for k, v in entries]), "next_value": M.none()})
+        cell = A.Cell(me)
+        ref = A.Ref(lambda: cell.v, lambda v: setattr(cell, "v", v))
+        got = []
+        try:
+            for _ in range(len(entries) + 1):
+                r = A.deref(A.Interp(C, I5).call_fn(nk[0], [ref, A.Sym("seed")]))
+                if r.variant != "Ok":
+                    got.append("Err")
+                    break
+                o = A.deref(r.fields[0])
+                if o.variant == "None":
+                    got.append(None)
+                    break
+                key = A.deref(o.fields[0])
+                v = A.deref(A.Interp(C, I5).call_fn(nv[0], [ref, A.Sym("seed")]))
+                val = A.deref(v.fields[0]) if isinstance(v, A.Enum) and v.variant == "Ok" else v
+                got.append((key, getattr(val, "variant", repr(val))))
+            want = [(k, v.variant) for k, v in entries] + [None]
+            R.check(got == want, "r5", "map-access-yields-every-entry", C.loc(nk[0]["sp"]),
+                    "a row with entries %s is handed to the visitor as %s: an entry that is skipped (e.g. a null value) is treated by serde "
+                    "as an absent key, so a field default replaces the value the row holds" % ([(k, v.variant) for k, v in entries], got))
+        except A.Unsupported as e:
+            R.fail("r5", "unanalysable", C.loc(nk[0]["sp"]), "cannot evaluate the MapAccess impl abstractly: %s (fail closed)" % e)
+        except A.PanicReached as e:
+            R.fail("r5", "panic", C.loc(nk[0]["sp"]), "the MapAccess impl panics in key / value order: %s" % e.what)
+
     # r3
     f = fns.get("deserialize_tuple")
     if f is None:
